@@ -5,12 +5,16 @@
 (* acl   : name -> Seq([n, ace])   entries in ascending sequence number n  *)
 (* intf  : name -> [vrf, in, out]  in/out = bound ACL name or ""           *)
 (* route : set of [vrf, dst, gw]                                           *)
-(* mode  : [k, v]  k in {"", "acl", "if"}                                  *)
+(* cmap  : "NAME SEQ" -> [name, seq, peers, fin, fout]  crypto map entries   *)
+(*         peers = set of peer addresses, fin/fout = filter ACL name or ""  *)
+(* ifcm  : interface -> name of the crypto map bound to it or ""           *)
+(* mode  : [k, v]  k in {"", "acl", "if", "cm"}                            *)
 (***************************************************************************)
 EXTENDS AclSem, TLC
 
-VARIABLES acl, intf, route, mode, err
-dvars == <<acl, intf, route, mode, err>>
+VARIABLES acl, intf, route, cmap, ifcm, mode, err
+dvars == <<acl, intf, route, cmap, ifcm, mode, err>>
+cv == <<cmap, ifcm>>
 
 Latch(g) == IF err = "" THEN g ELSE err
 Top  == [k |-> "", v |-> ""]
@@ -18,7 +22,8 @@ Drop(f, k) == [x \in (DOMAIN f) \ {k} |-> f[x]]
 Put(f, k, v) == [x \in (DOMAIN f) \cup {k} |-> IF x = k THEN v ELSE f[x]]
 
 Aces(n) == [i \in DOMAIN acl[n] |-> acl[n][i].ace]
-AclReferenced(n) == \E i \in DOMAIN intf : intf[i].in = n \/ intf[i].out = n
+AclReferenced(n) == \/ \E i \in DOMAIN intf : intf[i].in = n \/ intf[i].out = n
+                    \/ \E k \in DOMAIN cmap : cmap[k].fin = n \/ cmap[k].fout = n
 
 \* position at which sequence number k is inserted
 Before(s, k) == Cardinality({i \in DOMAIN s : s[i].n < k})
@@ -31,13 +36,13 @@ Resequence(n, start, step) ==
   /\ acl' = IF g = "" THEN [acl EXCEPT ![n] = [i \in DOMAIN @ |-> [@[i] EXCEPT !.n = start + (i - 1) * step]]]
             ELSE acl
   /\ mode' = Top
-  /\ UNCHANGED <<intf, route>>
+  /\ UNCHANGED <<intf, route, cmap, ifcm>>
 
 (* ip access-list extended N : opens the sub-mode; an unknown list is created empty *)
 AclEnter(n) ==
   /\ acl' = IF n \in DOMAIN acl THEN acl ELSE Put(acl, n, <<>>)
   /\ mode' = [k |-> "acl", v |-> n]
-  /\ UNCHANGED <<intf, route, err>>
+  /\ UNCHANGED <<intf, route, err, cmap, ifcm>>
 
 (* <k> permit|deny|remark ...   inside the sub-mode *)
 SeqInsertG(k, ace) ==
@@ -50,7 +55,7 @@ SeqInsert(k, ace) ==
   LET g == SeqInsertG(k, ace) IN
   /\ err' = Latch(g)
   /\ acl' = IF g = "" THEN [acl EXCEPT ![mode.v] = InsAt(@, Before(@, k) + 1, [n |-> k, ace |-> ace])] ELSE acl
-  /\ UNCHANGED <<intf, route, mode>>
+  /\ UNCHANGED <<intf, route, mode, cmap, ifcm>>
 
 (* permit|deny|remark ...  without number: appended with the next free number *)
 SeqAppendG(ace) ==
@@ -65,7 +70,7 @@ SeqAppend(ace) ==
   IN
   /\ err' = Latch(g)
   /\ acl' = IF g = "" THEN [acl EXCEPT ![mode.v] = Append(@, [n |-> k, ace |-> ace])] ELSE acl
-  /\ UNCHANGED <<intf, route, mode>>
+  /\ UNCHANGED <<intf, route, mode, cmap, ifcm>>
 
 (* no <k> *)
 SeqDeleteG(k) ==
@@ -76,7 +81,7 @@ SeqDelete(k) ==
   LET g == SeqDeleteG(k) IN
   /\ err' = Latch(g)
   /\ acl' = IF g = "" THEN [acl EXCEPT ![mode.v] = SelectSeq(@, LAMBDA e : e.n # k)] ELSE acl
-  /\ UNCHANGED <<intf, route, mode>>
+  /\ UNCHANGED <<intf, route, mode, cmap, ifcm>>
 
 (* no permit|deny|remark ...  : removes the entry with that content *)
 AceDeleteG(ace) ==
@@ -87,7 +92,7 @@ AceDelete(ace) ==
   LET g == AceDeleteG(ace) IN
   /\ err' = Latch(g)
   /\ acl' = IF g = "" THEN [acl EXCEPT ![mode.v] = SelectSeq(@, LAMBDA e : e.ace # ace)] ELSE acl
-  /\ UNCHANGED <<intf, route, mode>>
+  /\ UNCHANGED <<intf, route, mode, cmap, ifcm>>
 
 (* no ip access-list extended N *)
 AclDeleteG(n) ==
@@ -99,7 +104,7 @@ AclDelete(n) ==
   /\ err' = Latch(g)
   /\ acl' = IF g = "" THEN Drop(acl, n) ELSE acl
   /\ mode' = Top
-  /\ UNCHANGED <<intf, route>>
+  /\ UNCHANGED <<intf, route, cmap, ifcm>>
 
 (* interface I *)
 IntfEnterG(i) == IF i \notin DOMAIN intf THEN "unknown interface" ELSE ""
@@ -107,7 +112,7 @@ IntfEnter(i) ==
   LET g == IntfEnterG(i) IN
   /\ err' = Latch(g)
   /\ mode' = IF g = "" THEN [k |-> "if", v |-> i] ELSE Top
-  /\ UNCHANGED <<acl, intf, route>>
+  /\ UNCHANGED <<acl, intf, route, cmap, ifcm>>
 
 (* ip access-group N in|out   inside interface mode: replaces *)
 IntfBindG(n, dir) ==
@@ -119,7 +124,7 @@ IntfBind(n, dir) ==
   /\ err' = Latch(g)
   /\ intf' = IF g # "" THEN intf
              ELSE IF dir = "in" THEN [intf EXCEPT ![mode.v].in = n] ELSE [intf EXCEPT ![mode.v].out = n]
-  /\ UNCHANGED <<acl, route, mode>>
+  /\ UNCHANGED <<acl, route, mode, cmap, ifcm>>
 
 (* no ip access-group N in|out *)
 IntfUnbindG(n, dir) ==
@@ -131,13 +136,13 @@ IntfUnbind(n, dir) ==
   /\ err' = Latch(g)
   /\ intf' = IF g # "" THEN intf
              ELSE IF dir = "in" THEN [intf EXCEPT ![mode.v].in = ""] ELSE [intf EXCEPT ![mode.v].out = ""]
-  /\ UNCHANGED <<acl, route, mode>>
+  /\ UNCHANGED <<acl, route, mode, cmap, ifcm>>
 
 (* ip route [vrf V] D M G *)
 RouteAdd(r) ==
   /\ route' = route \cup {r}
   /\ mode' = Top
-  /\ UNCHANGED <<acl, intf, err>>
+  /\ UNCHANGED <<acl, intf, err, cmap, ifcm>>
 
 RouteDelG(r) == IF r \notin route THEN "route to be removed does not exist" ELSE ""
 RouteDel(r) ==
@@ -145,13 +150,71 @@ RouteDel(r) ==
   /\ err' = Latch(g)
   /\ route' = IF g = "" THEN route \ {r} ELSE route
   /\ mode' = Top
-  /\ UNCHANGED <<acl, intf>>
+  /\ UNCHANGED <<acl, intf, cmap, ifcm>>
 
-Exit   == mode' = Top /\ UNCHANGED <<acl, intf, route, err>>
-Resume == mode' = Top /\ UNCHANGED <<acl, intf, route, err>>
+(* crypto map NAME SEQ ipsec-isakmp : opens the sub-mode; an unknown entry is created *)
+(* incomplete (no peer, no filter)                                                   *)
+CmEnter(k, name, seq) ==
+  /\ cmap' = IF k \in DOMAIN cmap THEN cmap
+             ELSE Put(cmap, k, [name |-> name, seq |-> seq, peers |-> {}, fin |-> "", fout |-> ""])
+  /\ mode' = [k |-> "cm", v |-> k]
+  /\ UNCHANGED <<acl, intf, route, ifcm, err>>
+
+(* no crypto map NAME SEQ ipsec-isakmp *)
+CmDeleteG(k) == IF k \notin DOMAIN cmap THEN "crypto map entry to be removed does not exist" ELSE ""
+CmDelete(k) ==
+  LET g == CmDeleteG(k) IN
+  /\ err' = Latch(g)
+  /\ cmap' = IF g = "" THEN Drop(cmap, k) ELSE cmap
+  /\ mode' = Top
+  /\ UNCHANGED <<acl, intf, route, ifcm>>
+
+(* set peer P / no set peer P   inside the entry *)
+CmPeerG(p, no) ==
+  CASE mode.k # "cm" -> "sub-command outside the mode of its parent"
+    [] no /\ p \notin cmap[mode.v].peers -> "peer to be removed does not exist"
+    [] OTHER -> ""
+CmPeer(p, no) ==
+  LET g == CmPeerG(p, no) IN
+  /\ err' = Latch(g)
+  /\ cmap' = IF g # "" THEN cmap
+             ELSE IF no THEN [cmap EXCEPT ![mode.v].peers = @ \ {p}] ELSE [cmap EXCEPT ![mode.v].peers = @ \cup {p}]
+  /\ UNCHANGED <<acl, intf, route, ifcm, mode>>
+
+(* set ip access-group N in|out : replaces / no set ip access-group N in|out *)
+CmFilterG(n, dir, no) ==
+  CASE mode.k # "cm" -> "sub-command outside the mode of its parent"
+    [] ~no /\ n \notin DOMAIN acl -> "crypto filter references unknown access-list"
+    [] no /\ (IF dir = "in" THEN cmap[mode.v].fin ELSE cmap[mode.v].fout) # n -> "crypto filter to be removed does not exist"
+    [] OTHER -> ""
+CmFilter(n, dir, no) ==
+  LET g == CmFilterG(n, dir, no)
+      v == IF no THEN "" ELSE n
+  IN
+  /\ err' = Latch(g)
+  /\ cmap' = IF g # "" THEN cmap
+             ELSE IF dir = "in" THEN [cmap EXCEPT ![mode.v].fin = v] ELSE [cmap EXCEPT ![mode.v].fout = v]
+  /\ UNCHANGED <<acl, intf, route, ifcm, mode>>
+
+(* crypto map NAME  inside interface mode: replaces; the map must have an entry *)
+IntfCmG(name, no) ==
+  CASE mode.k # "if" -> "sub-command outside the mode of its parent"
+    [] ~no /\ ~\E k \in DOMAIN cmap : cmap[k].name = name -> "interface references unknown crypto map"
+    [] no /\ ifcm[mode.v] # name -> "crypto map binding to be removed does not exist"
+    [] OTHER -> ""
+IntfCm(name, no) ==
+  LET g == IntfCmG(name, no) IN
+  /\ err' = Latch(g)
+  /\ ifcm' = IF g # "" THEN ifcm ELSE [ifcm EXCEPT ![mode.v] = IF no THEN "" ELSE name]
+  /\ UNCHANGED <<acl, intf, route, cmap, mode>>
+
+Exit   == mode' = Top /\ UNCHANGED <<acl, intf, route, cmap, ifcm, err>>
+Resume == mode' = Top /\ UNCHANGED <<acl, intf, route, cmap, ifcm, err>>
 
 Integrity ==
   /\ \A n \in DOMAIN acl : \A i, j \in DOMAIN acl[n] : i < j => acl[n][i].n < acl[n][j].n
   /\ \A i \in DOMAIN intf : (intf[i].in # "" => intf[i].in \in DOMAIN acl)
                          /\ (intf[i].out # "" => intf[i].out \in DOMAIN acl)
+  /\ \A k \in DOMAIN cmap : (cmap[k].fin # "" => cmap[k].fin \in DOMAIN acl)
+                          /\ (cmap[k].fout # "" => cmap[k].fout \in DOMAIN acl)
 =============================================================================
